@@ -55,6 +55,23 @@ def ka_scenarios(rng, n):
                          {'op': 'stop_and_join'}]
             sc['same_func'] = True
             sc['expect_join_ok'] = True
+        if rng.random() < .12:
+            # an ordered lazy call whose slowest task is the first one: when the consumer has its first result(s) the call is over
+            # internally (the kept-alive workers are idle again) while the generator still holds buffered results — the next call,
+            # of the OTHER ordering mode, runs on the same workers with its own mode; the rest of the generator is taken afterwards
+            # (one task per worker, so that the slow first task holds nobody else's task up: the consumer's first result arrives
+            # when all are in, its second one lets the inner call finish)
+            nn = rng.choice([3, 4])
+            sc['pool'] = dict(pool, keep_alive=True, n_jobs=nn)
+            sc['rules'] = []
+            sc['ops'] = [{'op': 'imap', 'n': nn, 'chunk_size': 1, 'elem': rng.choice(['scalar', 'tuple']), 'consume': rng.randint(2, nn - 1),
+                          'dur': {'kind': 'map', 'map': {'0': 0.5}, 'default': 0.01}},
+                         {'op': rng.choice(['map_unordered', 'imap_unordered']), 'n': rng.randint(2, 6), 'chunk_size': rng.choice([1, 2]),
+                          'elem': rng.choice(['scalar', 'tuple'])}]
+            if rng.random() < .5:
+                sc['ops'].append({'op': 'map', 'n': rng.randint(2, 5), 'chunk_size': 1})
+            sc['same_func'] = rng.random() < .5
+            sc.pop('expect_join_ok', None)
         if rng.random() < .25:
             # each call passes a functools.partial of the same underlying functions, bound to ITS data
             sc['same_func'] = False
